@@ -424,6 +424,22 @@ func (fc *funcContext) translateStmt(stmt ast.Stmt, label *types.Label) {
 			return true
 		}
 
+		// A right-hand side that may block is evaluated in statements preceding the
+		// assignment: the calls and receive operations in the operands of the
+		// left-hand sides come before it in source order and are evaluated first.
+		rhsMayBlock := false
+		for _, rhs := range s.Rhs {
+			rhsMayBlock = rhsMayBlock || fc.Blocking[rhs]
+		}
+		if rhsMayBlock {
+			hoisted := *s
+			hoisted.Lhs = make([]ast.Expr, len(s.Lhs))
+			for i, lhs := range s.Lhs {
+				hoisted.Lhs[i] = fc.hoistLhsOperands(lhs)
+			}
+			s = &hoisted
+		}
+
 		switch {
 		case len(s.Lhs) == 1 && len(s.Rhs) == 1:
 			lhs := astutil.RemoveParens(s.Lhs[0])
@@ -958,6 +974,49 @@ func labelName(name string) string {
 		name = "s$"
 	}
 	return name
+}
+
+// hoistLhsOperands evaluates the operands of the left-hand side of an assignment
+// (the indexed, selected or dereferenced operand and the index) which contain
+// calls or receive operations into variables and returns the left-hand side that
+// uses them.
+func (fc *funcContext) hoistLhsOperands(lhs ast.Expr) ast.Expr {
+	changed := false
+	hoist := func(x ast.Expr) ast.Expr {
+		if fc.pkgCtx.Types[x].Value != nil || !fc.hasCallOrReceive(x) {
+			return x
+		}
+		changed = true
+		lhsVar := fc.newLocalVariable("_lhs")
+		fc.Printf("%s = %s;", lhsVar, fc.translateExpr(x))
+		return fc.newIdent(lhsVar, fc.typeOf(x))
+	}
+	switch l := astutil.RemoveParens(lhs).(type) {
+	case *ast.IndexExpr:
+		c := *l
+		c.X, c.Index = hoist(l.X), hoist(l.Index)
+		if changed {
+			return fc.setType(&c, fc.typeOf(l))
+		}
+	case *ast.StarExpr:
+		c := *l
+		c.X = hoist(l.X)
+		if changed {
+			return fc.setType(&c, fc.typeOf(l))
+		}
+	case *ast.SelectorExpr:
+		sel, ok := fc.selectionOf(l)
+		if !ok || sel.Kind() != types.FieldVal {
+			return lhs
+		}
+		c := *l
+		c.X = hoist(l.X)
+		if changed {
+			fc.pkgCtx.additionalSelections[&c] = sel
+			return fc.setType(&c, fc.typeOf(l))
+		}
+	}
+	return lhs
 }
 
 func (fc *funcContext) labelCase(label *types.Label) int {
